@@ -14,7 +14,7 @@ import (
 
 func init() { Registry["C17"] = runC17 }
 
-const explanationC17 = "Decides structural necessary conditions of C17 on pkg/validation.go and the sites that share its vocabulary: (R17.1) one format vocabulary — expr.Format*, goa.Format* constants, ValidateFormat's case labels, IsSupportedValidationFormat's labels and codegen.constant's string→goa.FormatX table agree by constant value (bijective); (R17.2/R17.3) on every SSA path of ValidateFormat the verdict for format F is 'accept' exactly under the predicate the format names (the stdlib parser of that format with the right layout constant succeeded; ip = ParseIP ok; ipv4 = ParseIP ok ∧ dotted-quad; ipv6 = ParseIP ok ∧ ¬dotted-quad, same regexp object with opposite polarity; unknown formats are rejected), and validateUUID = Parse ok ∧ RFC4122 variant; (R17.4) every top-level alternative of the validator regular expressions is anchored at both ends; (R17.5) the pattern cache is read under RLock and written under Lock on every path, stores MustCompile(p) under key p, and the verdict is InvalidPatternError iff !MatchString of that very pattern. (R17.6) the generated validators call the format validator and the pattern validator independently (a declared pattern is enforced even when a format is declared too). NOT decided: the exact language accepted by the stdlib parsers and by the hostname/ipv4 regular expressions beyond anchoring."
+const explanationC17 = "Decides structural necessary conditions of C17 on pkg/validation.go and the sites that share its vocabulary: (R17.1) one format vocabulary — expr.Format*, goa.Format* constants, ValidateFormat's case labels, IsSupportedValidationFormat's labels and codegen.constant's string→goa.FormatX table agree by constant value (bijective); (R17.2/R17.3) on every SSA path of ValidateFormat the verdict for format F is 'accept' exactly under the predicate the format names (the stdlib parser of that format with the right layout constant succeeded; ip = ParseIP ok; ipv4 = ParseIP ok ∧ dotted-quad; ipv6 = ParseIP ok ∧ ¬dotted-quad, same regexp object with opposite polarity; unknown formats are rejected), and validateUUID = Parse ok ∧ RFC4122 variant; (R17.4) every top-level alternative of the validator regular expressions is anchored at both ends; (R17.5) the pattern cache is read under RLock and written under Lock on every path, stores MustCompile(p) under key p, and the verdict is InvalidPatternError iff !MatchString of that very pattern. (R17.6) the generated validators call the format validator and the pattern validator independently (a declared pattern is enforced even when a format is declared too). (R17.7) package dsl re-exports the format (and every other) name of package expr under the same name. NOT decided: the exact language accepted by the stdlib parsers and by the hostname/ipv4 regular expressions beyond anchoring."
 
 // parser predicate atoms per format (canonical names)
 var fmtPredicates = map[string][]string{
@@ -52,6 +52,7 @@ func runC17(c *an.Ctx) string {
 	r174Regexes(c)
 	r175PatternCache(c)
 	keywordBlocksIndependent(c, "R17.6")
+	dslReexports(c, "R17.7")
 	return explanationC17
 }
 
@@ -73,19 +74,132 @@ func formatConsts(c *an.Ctx, dir string) map[string]string {
 	return out
 }
 
+// caseLabelValues returns the constant string labels under which f (or a helper extracted from it) decides on
+// a value satisfying pred: the case labels of a switch on that value, and the keys of a package-level map
+// literal indexed by it (the table form of the same switch). In a helper, pred holds of a parameter that
+// receives such a value at a call.
 func caseLabelValues(f *an.Func, pred func(tag ast.Expr) bool) []string {
-	var out []string
-	for _, sw := range findSwitches(f, pred) {
-		for _, s := range sw.Body.List {
-			for _, e := range s.(*ast.CaseClause).List {
-				if v, ok := an.ConstString(f.Pkg.TypesInfo, e); ok {
-					out = append(out, v)
+	group := []*an.Func{f}
+	if Current != nil {
+		group = Current.WithNewHelpers(f)
+	}
+	preds := map[*an.Func]func(ast.Expr) bool{f: pred}
+	for round := 0; round < 2; round++ {
+		for _, h := range group[1:] {
+			flagged := map[types.Object]bool{}
+			for _, g := range group {
+				gp := preds[g]
+				if gp == nil {
+					continue
 				}
+				ginfo := g.Pkg.TypesInfo
+				for _, call := range an.AllCallsIn(g.Decl.Body) {
+					if an.Callee(ginfo, call) != types.Object(h.Obj) {
+						continue
+					}
+					k := 0
+					for _, fl := range h.Decl.Type.Params.List {
+						for _, nm := range fl.Names {
+							if k < len(call.Args) && gp(call.Args[k]) {
+								flagged[h.Pkg.TypesInfo.Defs[nm]] = true
+							}
+							k++
+						}
+					}
+				}
+			}
+			hinfo := h.Pkg.TypesInfo
+			samePkg := h.Pkg == f.Pkg // pred reads f's package type information
+			preds[h] = func(tag ast.Expr) bool {
+				if flagged[an.ObjOf(hinfo, tag)] {
+					return true
+				}
+				if samePkg {
+					local := false
+					if id, isID := an.Unparen(tag).(*ast.Ident); isID {
+						if o := hinfo.Uses[id]; o != nil && o.Pkg() != nil && o.Parent() != o.Pkg().Scope() {
+							local = true
+						}
+					}
+					if !local {
+						return pred(tag) // not a local of the helper: the caller's criterion applies as it is
+					}
+				}
+				return false
 			}
 		}
 	}
+	var out []string
+	for _, g := range group {
+		gp := preds[g]
+		if gp == nil {
+			continue
+		}
+		info := g.Pkg.TypesInfo
+		for _, sw := range findSwitches(g, gp) {
+			for _, s := range sw.Body.List {
+				for _, e := range s.(*ast.CaseClause).List {
+					if v, ok := an.ConstString(info, e); ok {
+						out = append(out, v)
+					}
+				}
+			}
+		}
+		ast.Inspect(g.Decl.Body, func(n ast.Node) bool {
+			ix, ok := n.(*ast.IndexExpr)
+			if !ok || !gp(ix.Index) {
+				return true
+			}
+			if lit := globalMapLiteral(g, ix.X); lit != nil {
+				for _, el := range lit.Elts {
+					if kv, ok := el.(*ast.KeyValueExpr); ok {
+						if v, ok := an.ConstString(info, kv.Key); ok {
+							out = append(out, v)
+						}
+					}
+				}
+			}
+			return true
+		})
+	}
 	sort.Strings(out)
-	return out
+	// a label decided in the function and again in a helper it delegates to is one label
+	var uniq []string
+	for i, v := range out {
+		if i == 0 || v != out[i-1] {
+			uniq = append(uniq, v)
+		}
+	}
+	return uniq
+}
+
+// globalMapLiteral returns the composite literal that initialises the package-level map variable e denotes
+// (a variable of g's package), nil otherwise.
+func globalMapLiteral(g *an.Func, e ast.Expr) *ast.CompositeLit {
+	info := g.Pkg.TypesInfo
+	mv, ok := an.ObjOf(info, e).(*types.Var)
+	if !ok || mv.Pkg() == nil || mv.Parent() != mv.Pkg().Scope() {
+		return nil
+	}
+	if _, isMap := mv.Type().Underlying().(*types.Map); !isMap {
+		return nil
+	}
+	var lit *ast.CompositeLit
+	for _, file := range g.Pkg.Syntax {
+		ast.Inspect(file, func(x ast.Node) bool {
+			vs, ok := x.(*ast.ValueSpec)
+			if !ok {
+				return true
+			}
+			for i, nm := range vs.Names {
+				if info.Defs[nm] == types.Object(mv) && i < len(vs.Values) {
+					lit, _ = an.Unparen(vs.Values[i]).(*ast.CompositeLit)
+				}
+			}
+			return true
+		})
+	}
+	return lit
 }
 
 func r171Vocabulary(c *an.Ctx) {
